@@ -61,7 +61,7 @@ def gen_cases(tier, seed):
         for L in itertools.product(msubs, repeat=k):
             cases.append({"kind": "many", "L": [list(x) for x in L]})
     # random longer inputs, biased to shared elements / touching ends / nested ranges
-    n = 400 if tier == "quick" else 20000
+    n = 2500 if tier == "quick" else 40000
     for _ in range(n):
         hi = rnd.choice([50, 400, M32])
         la, lb = rnd.randint(0, 200), rnd.randint(0, 200)
